@@ -27,4 +27,5 @@ INVARIANT DelayAdditive
 INVARIANT DelayInverse
 INVARIANT DelayMonotone
 INVARIANT ChirpIsDelay
+INVARIANT FixAgrees
 CHECK_DEADLOCK FALSE
